@@ -22,3 +22,62 @@ TRUSTED = ("Trusted: CBMC 6.11 (partial-order encoding of threads, SAT back end)
            "(models/pthread_model.c: POSIX contract of mutex / condition variable / rwlock, signal wakes exactly one "
            "nondeterministically chosen waiter, bounded spurious wake-ups); the builtin models of the __atomic/__sync "
            "operations (one indivisible step each, x86 fence mapping, C11 release/acquire ghost).")
+
+
+def ensure_instrument_units():
+    """vf.Q(instrument_units=[goto-instrument argv...]): post-compile instrumentation of the UNIT objects (e.g. ["--havoc-loops"])
+    before linking.  Proposed as a small hook for lib/vf.py (see the patch text below); until the framework has it this shim adds it
+    at import time WITHOUT touching lib/vf.py - it becomes a no-op as soon as vf.Q knows the parameter.
+
+    --- proposed lib/vf.py change --------------------------------------------------------------
+    Q.__init__(..., instrument_units=()):   self.instrument_units = list(instrument_units)
+    Builder.build, after the remove_bodies block:
+        if q.instrument_units:
+            ins = []
+            for o in uobjs:
+                key = ("ins", o, tuple(q.instrument_units))
+                with self._keylock(key):
+                    if key not in self.cache:
+                        so = o[:-3] + "_ins%d.gb" % len(self.cache)
+                        rc, out, _ = run(["goto-instrument"] + list(q.instrument_units) + [o, so], timeout=300)
+                        if rc != 0: raise RuntimeError("goto-instrument failed:\n" + out[-2000:])
+                        self.cache[key] = so
+                ins.append(self.cache[key])
+            uobjs = ins
+    ---------------------------------------------------------------------------------------------
+    """
+    import inspect, threading
+    import vf
+    if "instrument_units" in inspect.signature(vf.Q.__init__).parameters or getattr(vf, "_conc_instrument_shim", False):
+        return
+    vf._conc_instrument_shim = True
+    tl = threading.local()
+    q_init, b_build, b_cc = vf.Q.__init__, vf.Builder.build, vf.Builder._cc
+
+    def init(self, *a, instrument_units=(), **k):
+        q_init(self, *a, **k)
+        self.instrument_units = list(instrument_units)
+
+    def build(self, q, idx):
+        tl.ins = list(getattr(q, "instrument_units", ()))
+        try:
+            return b_build(self, q, idx)
+        finally:
+            tl.ins = []
+
+    def cc(self, src, extra, tag, export_local=False):
+        out = b_cc(self, src, extra, tag, export_local)
+        ins = getattr(tl, "ins", [])
+        if tag != "u" or not ins:
+            return out
+        key = ("ins", out, tuple(ins))
+        with self._keylock(key):
+            if key not in self.cache:
+                so = out[:-3] + "_ins.gb"
+                rc, o, _ = vf.run(["goto-instrument"] + ins + [out, so], timeout=300)
+                if rc != 0:
+                    raise RuntimeError("goto-instrument %s failed for %s:\n%s" % (" ".join(ins), out, o[-2000:]))
+                self.cache[key] = so
+            return self.cache[key]
+
+    vf.Q.__init__, vf.Builder.build, vf.Builder._cc = init, build, cc
